@@ -17,7 +17,41 @@ hypothesis is that its store is well formed (`WF`, preserved by every operation:
 tables arbitrary.  `exportB`/`importB` pass the node vector through; the JSON TEXT in between
 (`serde_json::to_string` / `from_str`) is modelled in `Json` and composed with them in the last
 section ("from the JSON TEXT").  The DTO's decimal strings: `Persist.decimalCodec` (`Nat.repr`/`String.toNat?`) is a
-concrete `Codec`, see `simplified_roundtrip_decimal`. -/
+concrete `Codec`, see `simplified_roundtrip_decimal`.
+
+## Scope notes (moved here from `PersistMore.lean` by the third review - a reader of THIS file must see them)
+
+* **Two layers.** The object-level theorems (`import_nodes`, `import_fix`, `*_after_roundtrip`,
+  `future_ops_same_handles`, …) use `Persist.exportB` / `importB`, which pass the node vector
+  through unchanged and make only the `vectorize` step of the unique table explicit
+  (`HashMap.toList` / `HashMap.ofList`): at this layer the JSON encoding is the IDENTITY, several
+  conjuncts are `rfl`, and nothing is said about serde_json. The text layer is separate: the section
+  "from the JSON TEXT" (`JsonModel` / `JsonPersist`: printer with serde_json's escape table, lexer,
+  derived visitors) — only theorems of THAT section speak about bytes on disk.
+* **`VarContainer`.** `PAdf.names` is `ordering.names`; `ordering.mapping` (name ↦ index) is treated
+  as the inverse of `names` and not stored (object layer) resp. carried as a separate map `m` with
+  an arbitrary iteration order (text layer). The web service's `VarContainerDb`
+  (server/src/adf.rs:97-129: `mapping: HashMap<String, String>`, values `v.to_string()`, read back
+  with `v.parse().unwrap()`) is FOLDED into `names` in `toSimplified` / `fromSimplified`: that its
+  `mapping` strings decode (`decimalCodec` round trip) and that a corrupt `mapping` PANICS in
+  `From<VarContainerDb>` is not modelled; `simplified_roundtrip_decimal` covers `SimplifiedAdf`
+  (nodes and `ac` as decimal strings) only.
+* **`export_never_overwrites`** is about the three-line model `cliExport` (`exists` → skip, else
+  write), NOT part of the text-level CLI model `CliM.runText` of C15 (which has no file system).
+  The Rust (bin/src/main.rs:357-374) is `export.exists()` followed by `File::create(export)`: a
+  check-then-act sequence, so another process creating the path in between IS overwritten
+  (`File::create` truncates) — the theorem is a statement about a single sequential process on a
+  file system nobody else touches. Only the NAIVE arm exports (the `--lib biodivine` / hybrid arms
+  of `main.rs` have no `--export` code); `--import` skips parsing entirely.
+* **Answers after a round trip.** `SameAnswers` (no duplicates, same members) comes from the
+  exactness theorems and holds for ANY store denoting the same functions (`SameFns`), e.g. a
+  different node numbering. For the two round trips modelled here the node table is IDENTICAL, and
+  `C14More.history_after_roundtrip` / `searches_after_roundtrip` / `nogood_after_roundtrip` give
+  equality of the answer LISTS (order, handle numbers) by C11's `answers_depend_on_node_table`.
+* **Non-vacuity** is shown on `x0Adf` (one statement) and on `C14More.negAdf` (two statements,
+  `a ↦ ¬b`, `b ↦ ¬a`, two stable models; `C14More` lives in `PersistMore.lean`, restated in `Props/C11.lean`).
+* **CLI arms.** Only `--lib naive` has `--export` / `--import` code (bin/src/main.rs:329-374); the default
+  `--lib hybrid` ignores both flags silently. -/
 namespace C14
 open Persist Std
 
@@ -440,8 +474,9 @@ theorem text_answers_equal (w : Nat → List Char) (hw : Json.WsOnly w) (a : PAd
   exact ⟨r, h, hnm, hac, hs.grounded, hs.complete _ rfl, hs.stable _ rfl, hs.stablePre _ rfl,
     fun u u' => hs.count _ rfl u u'⟩
 
-/-- **CLI `--export PATH` on a free path, then `--import PATH`** (`serde_json::to_writer`, then
-`from_str` + `fix_import`): the file holds the text, and what is read back has the names, the
+/-- **CLI `--lib naive --export PATH` on a free path, then `--lib naive --import PATH`** (`serde_json::to_writer`, then
+`from_str` + `fix_import`; three-line file-system model `cliExport`: a single sequential process, no concurrent
+writer - the Rust is `exists()` then `File::create`, check-then-act; the other `--lib` arms ignore both flags): the file holds the text, and what is read back has the names, the
 root handles and the node table of the exporting run and denotes the same functions — so the
 sections printed by the importing run are those of `text_answers_equal` -/
 theorem cli_export_then_import (fs : String → Option String) (path : String) (free : (fs path).isNone)
@@ -698,6 +733,18 @@ example : ∃ o, CliM.parsedObj CliMP.exW { ioInv with sort := .lx } CliMP.exTex
   let r2 := CliM.runFileIO CliMP.exW 1000 ⟨ioInv, none, true⟩ ⟨[], []⟩ ['x'] r1.fs
   r1.out.exit == 0 && r1.out.stdout.length == 8 && r2.out == r1.out && r1.fs.map (·.1) == [['x'], ['n']] &&
   r1.out == CliM.runText CliMP.exW 1000 { ioInv with sort := .lx } CliMP.exText
+/-! third review (audit L1): the reader at the TEXT level, kernel-checked (was `#guard` only) -/
+section ThirdReview
+open Json
+
+/-- text level: members in another order, an unknown member (`"x":[]`), inner structs as arrays -/
+example : Json.parse "{\"x\":[],\"ac\":[2],\"bdd\":[[],[]],\"ordering\":{\"mapping\":{},\"names\":[\"a\"]}}".toList
+    = some ⟨["a"], [], [], [], [2]⟩ := by decide +kernel
+/-- a repeated known member is rejected; a missing one too -/
+example : Json.parse "{\"ac\":[],\"ac\":[],\"bdd\":[[],[]],\"ordering\":[[],{}]}".toList = none ∧
+    Json.parse "{\"bdd\":[[],[]],\"ordering\":[[],{}]}".toList = none := by decide +kernel
+
+end ThirdReview
 
 end C14
 
